@@ -87,17 +87,22 @@ func bcp47ToOtf(tag language.Tag) (otfScript, otfLang, error) {
 		scriptTag, _ := tag.Script()
 		bcpScript := scriptTag.String()
 
+		// Several OpenType tags can map to the same BCP 47 subtag.  Always
+		// choose the smallest one, so that the result does not depend on the
+		// map iteration order.
+		foundLang := false
 		for key, val := range langBcp47 {
-			if val == bcpLang {
+			if val == bcpLang && (!foundLang || string(key) < lang) {
 				lang = string(key)
-				break
+				foundLang = true
 			}
 		}
 
+		foundScript := false
 		for key, val := range scriptBcp47 {
-			if val == bcpScript {
+			if val == bcpScript && (!foundScript || string(key) < script) {
 				script = string(key)
-				break
+				foundScript = true
 			}
 		}
 	}
